@@ -8,6 +8,11 @@ Model of tonic's graceful shutdown (C13): the transition system of
     connection future, the `max_connection_age` sleep and the `Fuse`d `watcher.changed()`, the
     last two calling `conn.graceful_shutdown()`; `drop(watcher)` when the connection future ended;
   * `Fuse`                    — a future that yields `Ready` once and `Pending` ever after.
+and of `tonic/src/transport/server/io_stream.rs`
+  * `ServerIoStream`          — with a `TlsAcceptor`: streams taken from the inner incoming go into
+    a `JoinSet` of handshake tasks; a finished handshake is yielded to the accept loop, a failed
+    one is logged; the end of the inner incoming ends the stream at once (`SelectOutput::Done`),
+    abandoning handshakes still in the set.  Polled only from the accept loop.
 
 One label = one atomic step of one task.  Labels are of three kinds:
   * environment (what peers, the handler code and the user of `Server` do),
@@ -15,7 +20,9 @@ One label = one atomic step of one task.  Labels are of three kinds:
   * hyper/h2 (handshake, second GOAWAY, stream accepted, frames written/received, the connection
     future resolving).  Their guards ARE hyper's graceful-shutdown contract as tonic relies on it;
     they are trusted (exercised by the correspondence runs only).  The one that carries the
-    property is `hyperConnDone`, the guard of `connBreak`.
+    property is `hyperConnDone`, the guard of `connBreak`.  They are collected in one object,
+    `Hyper` / `hyperModel`, and `stepH H` is the same system over an arbitrary `H`; what `H` has to
+    satisfy is `HyperGracefulContract` (Lemmas/ShutdownContract).
 
 `cfgBiased` selects between the code as found (`false`: `select!` polls its two branches in random
 order, so a ready connection can win over a ready signal) and the repaired code (`true`: `biased;`,
@@ -45,11 +52,21 @@ structure Call where
   permits : Nat
   /-- the caller itself gave the call up (dropped the response / its connection) -/
   cancelled : Bool
+  /-- request side: how many sends the caller still has to do before its request stream is
+  complete (0 for unary and server-streaming calls, whose request is one message sent with the
+  call; client-streaming and bidi calls send one request message per `reqSend`, the last one
+  half-closes) -/
+  reqLeft : Nat
 deriving Repr
 
-def Call.new (chunks : List (List Item)) : Call :=
+def Call.new (chunks : List (List Item)) (req : Nat) : Call :=
   { plan := chunks.flatten, todo := chunks, sent := [], recv := 0, started := false,
-    permits := 0, cancelled := false }
+    permits := 0, cancelled := false, reqLeft := req }
+
+/-- The handler's LAST phase (the one that ends with the status) needs the complete request: a
+client-streaming handler answers after it has read the request stream to its end, the bidi
+handler sends its status after it has. Earlier phases (headers, response messages) do not. -/
+def Call.reqReady (k : Call) : Bool := k.todo.length != 1 || k.reqLeft == 0
 
 /-- From hyper's point of view the stream no longer keeps the connection alive. -/
 def Call.settled (k : Call) : Bool :=
@@ -85,6 +102,17 @@ structure Conn where
   /-- the client went away -/
   peerGone : Bool
   calls : List Call
+  /-- the server has a `TlsAcceptor`: `ServerIoStream` runs a TLS handshake on this connection (in
+  a `JoinSet` task) before it yields it to the accept loop -/
+  tls : Bool := false
+  /-- `ServerIoStream` took the TCP stream from the inner incoming and spawned its handshake -/
+  inSet : Bool := false
+  /-- the handshake task finished with `Ok(io)` (still in the `JoinSet` until the loop takes it) -/
+  tlsOk : Bool := false
+  /-- the client has started to speak TLS (a stalled client has not) -/
+  cliGo : Bool := false
+  /-- what the client sends is not a TLS handshake -/
+  cliBad : Bool := false
 deriving Repr
 
 def Conn.new (pending afterSig : Bool) : Conn :=
@@ -92,9 +120,16 @@ def Conn.new (pending afterSig : Bool) : Conn :=
     watcher := false, hs := false, sawSig := false, ageReady := false, ageFired := false,
     graceful := false, final := false, closed := false, peerGone := false, calls := [] }
 
+/-- a connection offered to a server configured with TLS; `go` = the client starts its handshake
+at once, `bad` = the client sends something that is not TLS -/
+def Conn.newTls (pending afterSig go bad : Bool) : Conn :=
+  { Conn.new pending afterSig with tls := true, cliGo := go, cliBad := bad }
+
 /-- hyper's connection future resolves: the peer left, or graceful shutdown was requested and
 either the handshake had not completed, or the final GOAWAY is out and every accepted stream has
-been answered completely and flushed.  TRUSTED: this is hyper's graceful-shutdown contract. -/
+been answered completely and flushed.  TRUSTED: this is hyper's graceful-shutdown contract
+(`HyperSafety.connDone_only` / `HyperLiveness.connDone_when`); clause (a) of C13 — no accepted call
+is dropped — is this guard, not something derived from tonic's code. -/
 def hyperConnDone (cn : Conn) : Bool :=
   cn.peerGone || (cn.graceful && !cn.hs) || (cn.final && cn.calls.all Call.settled)
 
@@ -150,11 +185,14 @@ def incomingBranch (s : State) : Bool := s.loopRunning && !(s.cfgBiased && sigBr
 
 inductive Label where
   -- environment
-  | offer | sigFire | endIncoming | acceptErr
-  | issue (c : Nat) (chunks : List (List Item))
-  | permit (c j : Nat) | freeRun | peerDrop (c : Nat) | cancel (c j : Nat) | ageTick
+  | offer | offerTls (go bad : Bool) | clientHello (c : Nat) | sigFire | endIncoming | acceptErr
+  | issue (c : Nat) (chunks : List (List Item)) (req : Nat)
+  | reqSend (c j : Nat)
+  | permit (c j : Nat) | freeRun | peerDrop (c : Nat) | cancel (c j : Nat) | ageTick (c : Nat)
   -- tonic: serve_internal
   | loopSig | loopAccept (c : Nat) | loopErr | loopEnd | afterLoop | resolve
+  -- tonic: ServerIoStream with a TlsAcceptor (io_stream.rs); the handshake itself is rustls
+  | tlsTake (c : Nat) | tlsDone (c : Nat) | tlsFail (c : Nat)
   -- tonic: serve_connection
   | connSig (c : Nat) | connAge (c : Nat) | connBreak (c : Nat) | connDropWatcher (c : Nat)
   -- hyper / h2 (trusted contract)
@@ -165,8 +203,9 @@ deriving Repr
 /-- Steps taken by the server process itself (tonic + hyper + handler code), as opposed to inputs
 from peers, the scenario and the clock. -/
 def Label.internal : Label → Bool
-  | .offer | .sigFire | .endIncoming | .acceptErr | .issue .. | .permit .. | .freeRun
-  | .peerDrop .. | .cancel .. | .ageTick => false
+  | .offer | .offerTls .. | .clientHello .. | .sigFire | .endIncoming | .acceptErr | .issue ..
+  | .reqSend .. | .permit .. | .freeRun
+  | .peerDrop .. | .cancel .. | .ageTick .. => false
   | _ => true
 
 def updConn (s : State) (c : Nat) (guard : Conn → Bool) (f : Conn → Conn) : Option State :=
@@ -196,13 +235,21 @@ def step (s : State) : Label → Option State
   | .offer =>
     -- a connection offered to an ended stream / a dropped stream is simply dropped
     some { s with conns := s.conns ++ [Conn.new (!s.ended && !s.resolved) s.sigReady] }
+  | .offerTls go bad =>
+    some { s with conns := s.conns ++ [Conn.newTls (!s.ended && !s.resolved) s.sigReady go bad] }
+  | .clientHello c =>
+    -- a client that had connected without speaking starts its TLS handshake
+    updConn s c (fun cn => cn.tls && !cn.cliGo) (fun cn => { cn with cliGo := true })
   | .sigFire =>
     if s.cfgGraceful && !s.sigReady then some { s with sigReady := true } else none
   | .endIncoming => if !s.ended then some { s with ended := true } else none
   | .acceptErr =>
     if !s.ended && !s.resolved then some { s with pendingErrs := s.pendingErrs + 1 } else none
-  | .issue c chunks =>
-    updConn s c (fun _ => true) (fun cn => { cn with calls := cn.calls ++ [Call.new chunks] })
+  | .issue c chunks req =>
+    updConn s c (fun _ => true) (fun cn => { cn with calls := cn.calls ++ [Call.new chunks req] })
+  | .reqSend c j =>
+    -- the caller sends the next message of its request stream (the last one half-closes)
+    updCall s c j (fun _ k => decide (0 < k.reqLeft)) (fun k => { k with reqLeft := k.reqLeft - 1 })
   | .permit c j => updCall s c j (fun _ _ => true) (fun k => { k with permits := k.permits + 1 })
   | .freeRun => some { s with freeRun := true }
   | .peerDrop c =>
@@ -210,10 +257,11 @@ def step (s : State) : Label → Option State
       (fun cn => { cn with peerGone := true,
                            calls := cn.calls.map (fun k => { k with cancelled := true }) })
   | .cancel c j => updCall s c j (fun _ _ => true) (fun k => { k with cancelled := true })
-  | .ageTick =>
+  | .ageTick c =>
+    -- virtual time passes: the `max_connection_age` sleep of connection `c` (armed when the
+    -- connection task was spawned) has elapsed
     if s.cfgAge then
-      some { s with conns := s.conns.map (fun cn =>
-        if cn.accepted && !cn.closed then { cn with ageReady := true } else cn) }
+      updConn s c (fun cn => cn.accepted && !cn.closed) (fun cn => { cn with ageReady := true })
     else none
   -- ---------------------------------------------------------------- serve_internal
   | .loopSig =>
@@ -223,8 +271,9 @@ def step (s : State) : Label → Option State
     else none
   | .loopAccept c =>
     -- `Some(Ok(io))` … `serve_connection(.., graceful.then(|| signal_rx.clone()), ..)`
+    -- with TLS: `SelectOutput::Io(io)`, a finished handshake taken out of the `JoinSet`
     if incomingBranch s then
-      updConn s c (fun cn => cn.pending)
+      updConn s c (fun cn => cn.pending && (!cn.tls || cn.tlsOk))
         (fun cn => { cn with pending := false, accepted := true, watcher := s.cfgGraceful })
     else none
   | .loopErr =>
@@ -233,8 +282,11 @@ def step (s : State) : Label → Option State
       some { s with pendingErrs := s.pendingErrs - 1 }
     else none
   | .loopEnd =>
-    -- `None => break`: only once everything queued before the end has been consumed
-    if incomingBranch s && s.ended && s.pendingErrs == 0 && s.conns.all (fun cn => !cn.pending)
+    -- `None => break`: only once everything queued before the end has been consumed.  With TLS
+    -- (`SelectOutput::Done`) handshakes still in the `JoinSet` do not hold the end back: they are
+    -- abandoned (dropped with `incoming` when the serve future returns).
+    if incomingBranch s && s.ended && s.pendingErrs == 0
+        && s.conns.all (fun cn => !cn.pending || cn.inSet)
     then some { s with loopRunning := false }
     else none
   | .afterLoop =>
@@ -250,6 +302,22 @@ def step (s : State) : Label → Option State
                     conns := s.conns.map (fun cn =>
                       { cn with pending := false }) }
     else none
+  -- ---------------------------------------------------------------- ServerIoStream (TLS)
+  | .tlsTake c =>
+    -- `SelectOutput::Incoming(stream)`: `tasks.spawn(tls.accept(stream))`, wake, `Pending`.
+    -- `ServerIoStream` is polled only from the accept loop's `incoming.next()` branch.
+    if incomingBranch s then
+      updConn s c (fun cn => cn.tls && cn.pending && !cn.inSet) (fun cn => { cn with inSet := true })
+    else none
+  | .tlsDone c =>
+    -- the handshake task (spawned: it runs whether or not the loop still polls) finishes `Ok`
+    updConn s c (fun cn => cn.inSet && cn.pending && !cn.tlsOk && cn.cliGo && !cn.cliBad
+                           && !cn.peerGone)
+      (fun cn => { cn with tlsOk := true })
+  | .tlsFail c =>
+    -- the handshake fails (`SelectOutput::TlsErr`: logged, the loop goes on); the IO is dropped
+    updConn s c (fun cn => cn.inSet && cn.pending && !cn.tlsOk && (cn.cliBad || cn.peerGone))
+      (fun cn => { cn with pending := false })
   -- ---------------------------------------------------------------- serve_connection
   | .connSig c =>
     -- `_ = &mut sig => conn.as_mut().graceful_shutdown()`
@@ -281,12 +349,68 @@ def step (s : State) : Label → Option State
   | .produce c j =>
     updCall s c j
       (fun cn k => !cn.closed && k.started && !k.cancelled
-                   && (decide (0 < k.permits) || s.freeRun) && !k.todo.isEmpty)
+                   && ((decide (0 < k.permits) || s.freeRun) && k.reqReady) && !k.todo.isEmpty)
       Call.produce
   | .deliver c j =>
     updCall s c j
       (fun cn k => !cn.closed && !cn.peerGone && !k.cancelled && decide (k.recv < k.sent.length))
       (fun k => { k with recv := k.recv + 1 })
+
+/-- Everything the transition system takes from hyper / h2 on trust, as ONE object: the enabling
+conditions of the five steps that are hyper's to take.  `step` is the transition system with
+`hyperModel` (below) plugged in; `stepH H` is the same system over an arbitrary `H`.  What a real
+hyper has to satisfy for the theorems to apply is `HyperGracefulContract H`
+(Lemmas/ShutdownContract). -/
+structure Hyper where
+  /-- the connection future (`Connection` of `serve_connection`) resolves -/
+  connDone : Conn → Bool
+  /-- the HTTP/2 handshake completes (hyper's connection state becomes `Serving`) -/
+  handshake : Conn → Bool
+  /-- the second, final GOAWAY of a graceful shutdown goes out: new streams are refused from now on -/
+  finalGoaway : Conn → Bool
+  /-- a new stream is accepted and the service (tonic's router, the handler) is called -/
+  acceptStream : Conn → Call → Bool
+  /-- the next item written to a stream reaches the caller -/
+  deliver : Conn → Call → Bool
+
+/-- hyper as the model has it: the guards written out in `step`. -/
+def hyperModel : Hyper where
+  connDone := hyperConnDone
+  handshake cn := !cn.hs && !cn.graceful && !cn.peerGone
+  finalGoaway cn := cn.hs && cn.graceful && !cn.final
+  acceptStream cn k := cn.hs && !cn.final && !cn.peerGone && !k.started && !k.cancelled
+  deliver cn k := !cn.peerGone && !k.cancelled && decide (k.recv < k.sent.length)
+
+/-- The transition system over an arbitrary hyper: the five hyper steps are enabled by `H` (on an
+accepted connection that the task has not left yet), every other step is `step`'s. -/
+def stepH (H : Hyper) (s : State) : Label → Option State
+  | .connBreak c =>
+    updConn s c (fun cn => cn.accepted && !cn.closed && H.connDone cn)
+      (fun cn => { cn with closed := true })
+  | .hsDone c =>
+    updConn s c (fun cn => cn.accepted && !cn.closed && H.handshake cn)
+      (fun cn => { cn with hs := true })
+  | .final c =>
+    updConn s c (fun cn => cn.accepted && !cn.closed && H.finalGoaway cn)
+      (fun cn => { cn with final := true })
+  | .callStart c j =>
+    updCall s c j (fun cn k => cn.accepted && !cn.closed && H.acceptStream cn k)
+      (fun k => { k with started := true })
+  | .deliver c j =>
+    updCall s c j (fun cn k => !cn.closed && H.deliver cn k)
+      (fun k => { k with recv := k.recv + 1 })
+  | l => step s l
+
+def runH (H : Hyper) (s : State) : List Label → Option State
+  | [] => some s
+  | l :: ls => match stepH H s l with
+    | some s' => runH H s' ls
+    | none => none
+
+inductive ReachableH (H : Hyper) (g b a : Bool) : State → Prop
+  | init : ReachableH H g b a (init g b a)
+  | step {s s' : State} (l : Label) :
+      ReachableH H g b a s → stepH H s l = some s' → ReachableH H g b a s'
 
 /-- Execute a sequence of labels; `none` if some label was not enabled. -/
 def run (s : State) : List Label → Option State
